@@ -477,6 +477,26 @@ fn value_cases(rng: &mut Rng) -> Vec<Case> {
     v.push(Case::new("Expand", vec![f(rng, &[1, 3]), iv(&[2, 1, *rng.pick(&[1i64, 3])])]));
     v.push(Case::new("Range", vec![isc(rng.range_i64(-3, 3)), isc(rng.range_i64(-3, 6)), isc(*rng.pick(&[1i64, 2, -1, -2]))]));
     v.push(Case::new("ConstantOfShape", vec![iv(&[rng.range_i64(0, 3)])]).a("value", Attr::Tensor(onnx_enc::Tensor::i64s("v", &[1], &[rng.range_i64(-2, 5)]))));
+    // shape-level Unsqueeze / Squeeze / Transpose with one or two (possibly negative) axes
+    {
+        let r = 1 + rng.usize_below(3);
+        let sh = rshape(rng, r, 3);
+        let out_rank = (r + 2) as i64;
+        let a1 = rng.range_i64(-out_rank, out_rank - 1);
+        let a2 = rng.range_i64(-out_rank, out_rank - 1);
+        v.push(Case::new("Unsqueeze", vec![f(rng, &sh), iv(&[a1, a2])]));
+        v.push(Case::new("Unsqueeze", vec![f(rng, &sh), iv(&[rng.range_i64(-(r as i64) - 1, r as i64)])]));
+        let mut sq = sh.clone();
+        let ax = rng.usize_below(r);
+        sq[ax] = 1;
+        let neg = ax as i64 - r as i64;
+        v.push(Case::new("Squeeze", vec![f(rng, &sq), iv(&[if rng.chance(1, 2) { ax as i64 } else { neg }])]));
+        v.push(Case::new("Squeeze", vec![iv(&small_ints(rng, 1)), iv(&[*rng.pick(&[0i64, -1])])]));
+        let mut p: Vec<i64> = (0..r as i64).collect();
+        rng.shuffle(&mut p);
+        v.push(Case::new("Transpose", vec![f(rng, &sh)]).ais("perm", &p));
+        v.push(Case::new("Transpose", vec![f(rng, &sh)]));
+    }
     v.push(Case::new("Cast", vec![iv(&vec_in)]).ai("to", 7));
     v.push(Case::new("Neg", vec![iv(&vec_in)]));
     v.push(Case::new("Identity", vec![iv(&vec_in)]));
